@@ -55,7 +55,8 @@ CLAIMED = {
     'C18': dict(
         text='Every send/receive function changes the per-type counters by exactly the number of messages of that type it writes / takes from the '
              'stream with at least the minimum length (update obligations on msg_sent_stat / msg_recv_stat of every function that touches the '
-             'wire). Three deviations are open known findings.',
+             'wire); where the RFC row of C01 is an open finding (second OPEN in OpenConfirm / Established) the clause is stated directly over the '
+             'writes observed; a new connection starts with its own zeroed counters (buildProtocol). Three deviations are open known findings.',
         note='T1; Update.construct enters through an assumed abstract contract',
         ref='5 C18'),
     'C11': dict(
@@ -77,7 +78,7 @@ CLAIMED = {
     'C14': dict(
         text='E/D contracts: Notification/KeepAlive/RouteRefresh construct == RFC spec for all field values (struct.error exactly outside the ranges), '
              'parse == RFC decode for ALL byte strings; Open.construct == reference encoder for six capability-set shapes; Open.parse == reference '
-             'decode on 18 capability/packaging scenarios (one per parameter, several per parameter, unknown codes, LLGR, add-path, extended next hop, '
+             'decode on 20 capability/packaging scenarios (one per parameter, several per parameter, unknown codes, LLGR, add-path incl. one capability per address family, extended next hop, '
              'no optional parameters) with every field symbolic; spec-level round-trip lemmas.',
         note='T3 library models; OPEN capability shapes are an enumerated set (<= 4 capabilities per message): bounded in shape, unbounded in values',
         ref='5 C14'),
@@ -86,14 +87,18 @@ CLAIMED = {
              'well-known name, ORIGINATOR_ID, CLUSTER_LIST, LARGE COMMUNITIES): construct == RFC reference encoding and raises exactly outside '
              'the value ranges; parse of the reference encoding returns the values; Update.construct == header(withdrawn, attributes, NLRI) for '
              'six message shapes incl. announce+withdraw; Update.parse of reference encodings returns exactly the parts; prefix lists for every '
-             'length 0..32; per-iteration step contracts make prefix-list and attribute-stream decoding unbounded in length.',
+             'length 0..32; per-iteration step contracts make prefix-list and attribute-stream decoding unbounded in length; encoder step contracts (one iteration appends exactly the element encoding to an ARBITRARY accumulator) and '
+             'framing contracts (for ANY accumulated value the tail emits a well-formed TLV, extended length iff > 255 octets, never struct.error) make '
+             'AS_PATH / community / cluster-list encoding unbounded in length.',
         note='T3; list shapes enumerated (<= 3 elements; AS_PATH one 130-AS segment), values symbolic; EXTENDED COMMUNITIES are decided under C17; LARGE_COMMUNITIES flag octet is an open known finding',
         ref='5 C06'),
     'C08': dict(
         text='every construct function under contract returns EXACTLY a reference encoding built from structural combinators (header length = size, '
              'attribute length form chosen by size with the extended-length bit agreeing, prefixes ceil(len/8) octets) or raises; flag constants of '
-             'the attribute classes equal the RFC category table.',
-        note='T3; shapes enumerated; MP families, tunnel encapsulation, PMSI, SR-TE policy and IPv6 flowspec constructors are NOT under contract (listed in the evidence)',
+             'the attribute classes equal the RFC category table; framing and encoder step contracts for lists of any length; TunnelEncaps.construct '
+             '(SR-TE policy: preference, binding SID, ENLP, priority, name, remote endpoint, segment lists with segment types 1/3/5/6 with and '
+             'without SID, weights) against an independent structural walker of the nested TLVs.',
+        note='T3; shapes enumerated; PMSI, SR-TE policy NLRI and IPv6 flowspec constructors are NOT under contract; the MP families are under contract in C07',
         ref='5 C08'),
     'C09': dict(
         text='decoders against an independent RFC encoder (specs/attrs.py) with each legal variant: extended-length flag on short attributes, '
@@ -105,7 +110,9 @@ CLAIMED = {
     'C15': dict(
         text='per-iteration step contracts (decoder-while rule) on the real loop bodies: one iteration decodes exactly the first element from its '
              'own octets and leaves exactly the rest (IPv4 prefix lists with/without add-path; path-attribute stream incl. unknown types, result '
-             'stored under the type code only) => compositionality by list induction; attribute-order independence checked on permuted reference encodings.',
+             'stored under the type code only) => compositionality by list induction; attribute-order independence checked on permuted reference encodings and, '
+             'for the coupled pair LINK_STATE / MP_REACH, by a contract that LINK_STATE is decoded exactly once, from its own octets, with the protocol id of '
+             'the BGP-LS NLRI whatever its position; OPEN capabilities on the C14 packagings (one capability split over several TLVs accumulates).',
         note='T5 (list induction); other list kinds on enumerated shapes or termination only (see evidence assumptions)',
         ref='5 C15'),
     'C16': dict(
